@@ -9,9 +9,12 @@ import vlib
 TOL = 0.0015   # 3-decimal output rounding
 
 
+UNIT = 0.25     # user units per grid unit (a check may switch to a non-dyadic unit, e.g. 0.2)
+
+
 def q(v):
-    """quarter units -> attribute string"""
-    x = v / 4.0
+    """grid units (quarters by default) -> attribute string"""
+    x = v * UNIT
     s = ("%.3f" % x).rstrip("0").rstrip(".")
     return "0" if s in ("-0", "") else s
 
@@ -103,7 +106,7 @@ def el_bbox(el):
 def box_close(actual, exp_q):
     if actual is None or any(v is None for v in actual):
         return False
-    e = (exp_q["x1"] / 4, exp_q["y1"] / 4, exp_q["x2"] / 4, exp_q["y2"] / 4)
+    e = (exp_q["x1"] * UNIT, exp_q["y1"] * UNIT, exp_q["x2"] * UNIT, exp_q["y2"] * UNIT)
     return all(abs(a - b) <= TOL + 1e-5 * abs(b) for a, b in zip(actual, e))
 
 
